@@ -41,13 +41,16 @@ type hist struct {
 	tied      bool
 	rootOnly  bool // after a dropped block with the live trie in memory: only state roots are compared
 	afterDrop bool
-	dropFail  bool
+	dropWild  bool              // some dropped block was outside the model (contents unpredictable)
+	spec      map[string][]byte // after a tied drop: the contents the property asks for (h.cont is then the as-built contents)
+	dropKeys  map[string]bool   // failure keys already reported after a drop
 	dead      bool // the machine panicked or errored: the case is over
 	probes    [][]byte
+	persisted int64 // height of the last block at the time of the last persist (-1: nothing persisted yet)
 }
 
 func newHist(o *hx.Out, k int, mode string, m machine) *hist {
-	h := &hist{o: o, k: k, mode: mode, rcMode: mode != "all", m: m, prev: view{}, last: view{}, cont: map[string][]byte{}, recs: map[uint32]*rec{}, tied: true}
+	h := &hist{o: o, k: k, mode: mode, rcMode: mode != "all", m: m, prev: view{}, last: view{}, cont: map[string][]byte{}, recs: map[uint32]*rec{}, tied: true, persisted: -1}
 	h.line("mode "+mode, "ok")
 	return h
 }
@@ -62,23 +65,47 @@ func (h *hist) line(op, obs string) {
 	h.o.Line(op, obs)
 }
 
-// fail reports an oracle failure. After a dropped block only the first failure of the case is
-// reported, under one of three keys (state root / node store / panic): DESIGN §6 item 11.
+// storeAfterDrop: the oracle failures on the NODE STORE that the known defect (DESIGN §6 item 11)
+// produces after a dropped block whose effect on the trie contents is predictable (the module's
+// trie becomes the dropped block's trie, the shared refcount map keeps the dropped block's cached
+// counts, the dropped block's nodes were never stored): wrong counts, missing nodes, left-over or
+// early deactivated records, and reads that fail on them. Everything else — a read returning a wrong
+// value, contents differing from the as-built contents, malformed records, a store touched before
+// the commit — is NOT a consequence of it and is reported under its own key.
+var storeAfterDrop = map[string]bool{
+	"count-mismatch": true, "latest:node-missing": true, "retained:node-missing": true,
+	"reachable-inactive": true, "garbage-node": true, "unreachable-active": true,
+	"retained:early-inactive": true, "retained-get-mismatch": true, "retained-find-mismatch": true,
+	"drop-changed-store": true,
+}
+
+// fail reports an oracle failure. After a dropped block every failure key is reported once per
+// case; the consequences of the known defect are folded into its keys: uncommitted-block:root,
+// uncommitted-block:panic, uncommitted-block:store:<oracle> (storeAfterDrop), and — only when the
+// dropped block's effect on the contents is outside the model — the coarse uncommitted-block:wild.
 func (h *hist) fail(key string, format string, a ...any) {
 	if h.afterDrop {
-		if h.dropFail {
-			return
-		}
-		h.dropFail = true
 		switch {
 		case key == "root-mismatch":
 			key = "uncommitted-block:root"
-		case strings.HasPrefix(key, "panic") || strings.HasPrefix(key, "error") || key == "read-panic":
+		case key == "panic-in-block" || key == "error-in-block":
 			key = "uncommitted-block:panic"
-		default:
+		case strings.HasPrefix(key, "harness-") || key == "read-panic" || key == "gc-left-node" ||
+			key == "gc-layering-mismatch" || key == "node-bad-suffix" || key == "inactive-future-height":
+			// never a consequence
+		case h.dropWild:
 			format = "(" + key + ") " + format
-			key = "uncommitted-block:store"
+			key = "uncommitted-block:wild"
+		case storeAfterDrop[key]:
+			key = "uncommitted-block:store:" + key
 		}
+		if h.dropKeys == nil {
+			h.dropKeys = map[string]bool{}
+		}
+		if h.dropKeys[key] {
+			return
+		}
+		h.dropKeys[key] = true
 	}
 	h.o.Fail(key, h.k, "[%s/%s] "+format, append([]any{h.m.Name(), h.mode}, a...)...)
 }
@@ -142,6 +169,7 @@ func rootIsBranch(cont map[string][]byte) bool {
 
 // block runs one committed block and all oracles.
 func (h *hist) block(idx uint32, ops []subop) {
+	h.prePersist()
 	root, obs := h.m.Block(idx, ops, true)
 	h.checkLeak(idx)
 	if obs != "" {
@@ -155,6 +183,14 @@ func (h *hist) block(idx uint32, ops []subop) {
 			h.fail("error-in-block", "block %d returned an error", idx)
 		}
 		return
+	}
+	if h.spec != nil {
+		// after a tied drop: the property's contents (without the dropped changes) against the real
+		// root — the known finding —, everything else against the as-built contents
+		h.spec = applyOps(h.spec, ops)
+		if rr := refRoot(h.spec); rr != root {
+			h.fail("root-mismatch", "height %d: root %s, a fresh trie with the committed contents has %s", idx, root.StringBE(), rr.StringBE())
+		}
 	}
 	h.committed(idx, ops, root, applyOps(h.cont, ops), h.rootOnly)
 }
@@ -232,6 +268,44 @@ func (h *hist) sync() {
 	h.checkRetained(cur, true)
 }
 
+// nodeGC records one tryRunGC of the node (g == nil: it decided not to collect). The driver's
+// `rungc` predicts the decision and the index; the merged store is compared record by record.
+func (h *hist) nodeGC(g *uint32) {
+	cur := h.m.View()
+	gs := "gc=-"
+	if g != nil {
+		gs = fmt.Sprintf("gc=%d", *g)
+	}
+	h.line("rungc", gs+" "+storeObs(h.rcMode, h.prev, cur))
+	if len(cur) < len(h.last) {
+		h.o.Count("gc:removed-something")
+		h.o.Add("gc:records-removed", len(h.last)-len(cur))
+	}
+	h.prev, h.last = cur, cur
+	if g == nil {
+		h.o.Count("rungc:none")
+		return
+	}
+	h.o.Count("rungc:collected")
+	if !h.gcDone || *g > h.gcAt {
+		h.gcAt = *g
+	}
+	h.gcDone = true
+	if up, d := h.m.Upper(); len(up)+d > 0 {
+		h.o.Count("rungc:collected-with-blocks-in-upper-layer")
+	}
+	// the collection ran on the persistent store; through the layers nothing inactive at or below
+	// g may be visible (the layering condition holds on a node)
+	for k, v := range cur {
+		c, err := splitValue(true, v)
+		if err == nil && !c.active && c.num <= *g {
+			h.fail("gc-left-node", "node gc %d left %x inactive since %d", *g, k, c.num)
+			break
+		}
+	}
+	h.checkRetained(cur, true)
+}
+
 // gcObserved records a collection the node ran by itself.
 func (h *hist) gcObserved(g uint32) {
 	h.line(fmt.Sprintf("gcq %d", g), "ok")
@@ -257,20 +331,35 @@ func (h *hist) checkLeak(idx uint32) {
 	if x.leak != "" {
 		h.o.Fail("addmptbatch-writes-through", h.k, "[%s/%s] block %d: the module's store changed before the block was committed: %s", h.m.Name(), h.mode, idx, x.leak)
 	}
+	if x.tickObs != "" {
+		h.o.Count("drop:persist-tick-before-commit")
+	}
+	if x.leakDisk != "" {
+		h.o.Fail("uncommitted-reached-disk", h.k, "[%s/%s] block %d computed, persist tick, block never committed: the persistent store differs from what was committed before: %s", h.m.Name(), h.mode, idx, x.leakDisk)
+	}
 }
 
 // drop computes a block and never commits it.
 func (h *hist) drop(idx uint32, ops []subop) {
 	inMem := h.m.CanDrop() && rootIsBranch(h.cont) && rootIsBranch(applyOps(h.cont, ops))
+	h.prePersist()
 	root, obs := h.m.Block(idx, ops, false)
 	h.checkLeak(idx)
 	if !inMem {
 		// which Go objects the shallow copy shares is outside the model here: stop comparing
 		h.line("wild", "ok")
 		h.tied = false
+		h.dropWild = true
 		h.o.Count("drop:wild")
 	} else {
 		h.o.Count("drop:tied")
+		if !h.dropWild && obs == "" {
+			// the module's trie is now the dropped block's trie (Model/MptRc.lean dropBlock)
+			if h.spec == nil {
+				h.spec = h.cont
+			}
+			h.cont = applyOps(h.cont, ops)
+		}
 	}
 	if obs != "" {
 		h.afterDrop = true
@@ -279,9 +368,16 @@ func (h *hist) drop(idx uint32, ops []subop) {
 		return
 	}
 	h.line(fmt.Sprintf("drop %d %s", idx, subStr(ops)), "r="+hex.EncodeToString(root[:]))
+	if x, ok := h.m.(*modM); ok && x.tickObs != "" {
+		h.notePersist(x.tickObs)
+	}
 	// from here on the node store is no longer predictable (Flush mutates stored slices in place),
 	// the state roots still are
 	h.rootOnly = true
+	if x, ok := h.m.(*modM); ok && x.copies && inMem {
+		h.rootOnly = false
+		h.o.Count("drop:tied-with-store")
+	}
 	h.afterDrop = true
 	cur := h.m.View()
 	if !sameView(cur, h.last) {
@@ -290,6 +386,31 @@ func (h *hist) drop(idx uint32, ops []subop) {
 		} else {
 			h.fail("drop-changed-store", "a dropped block changed the node store (in place, through shared slices)")
 		}
+	}
+}
+
+// prePersist: see modM.PrePersist.
+func (h *hist) prePersist() {
+	if x, ok := h.m.(*modM); ok {
+		if obs := x.PrePersist(); obs != "" {
+			h.notePersist(obs)
+		}
+	}
+}
+
+// persist flushes the MemCachedStore of the machine to its persistent layer; the observation is
+// what was waiting in it (the model's upper layer must hold the same number of puts / deletions).
+func (h *hist) persist() {
+	obs := upperObs(h.m)
+	h.m.Persist()
+	h.notePersist(obs)
+}
+
+func (h *hist) notePersist(obs string) {
+	h.line("persist", obs)
+	h.o.Count("persist")
+	if len(h.heights) > 0 {
+		h.persisted = int64(h.heights[len(h.heights)-1])
 	}
 }
 
@@ -305,8 +426,61 @@ func sameView(a, b view) bool {
 	return true
 }
 
+// gcl collects on the persistent layer while newer blocks wait in the MemCachedStore above it
+// (MemCachedStore layering under GC). The model applies the collection to its lower layer only;
+// when no inactive record with height <= g waits in the upper layer (the condition the node
+// guarantees, checked here on the real stores), the result must also be the collection of the
+// merged store.
+func (h *hist) gcl(g uint32) {
+	merged := h.m.View()
+	upper, dels := h.m.Upper()
+	cond := true
+	expect := view{}
+	for k, v := range merged {
+		c, err := splitValue(true, v)
+		old := err == nil && !c.active && c.num <= g
+		if _, ok := upper[k]; ok && old {
+			cond = false // an old inactive record sits in the upper layer
+		}
+		if !old {
+			expect[k] = v
+		}
+	}
+	h.m.GCLow(g)
+	cur := h.m.View()
+	h.line(fmt.Sprintf("gcl %d", g), fmt.Sprintf("up=%d/%d ", len(upper), dels)+storeObs(h.rcMode, h.prev, cur))
+	if len(cur) < len(h.last) {
+		h.o.Count("gc:removed-something")
+		h.o.Add("gc:records-removed", len(h.last)-len(cur))
+	}
+	h.prev, h.last = cur, cur
+	if !h.gcDone || g > h.gcAt {
+		h.gcAt = g
+	}
+	h.gcDone = true
+	h.o.Count("gcl")
+	if int64(g) <= h.persisted {
+		h.o.Count("gcl:index<=persisted-height")
+	}
+	if len(upper)+dels > 0 {
+		h.o.Count("gcl:upper-layer-nonempty")
+	}
+	if cond {
+		h.o.Count("gcl:condition-held")
+		if !sameView(cur, expect) {
+			h.fail("gc-layering-mismatch", "gc %d on the persistent layer: the merged view has %d records, collecting the merged store gives %d", g, len(cur), len(expect))
+		}
+	} else {
+		h.o.Count("gcl:condition-violated")
+	}
+	h.checkRetained(cur, true)
+}
+
 func (h *hist) gc(g uint32) {
 	h.m.GC(g)
+	if len(h.heights) > 0 {
+		h.persisted = int64(h.heights[len(h.heights)-1])
+	}
 	cur := h.m.View()
 	h.line(fmt.Sprintf("gc %d", g), storeObs(h.rcMode, h.prev, cur))
 	if len(cur) < len(h.last) {
@@ -336,7 +510,9 @@ func (h *hist) reset() {
 		// next batch; a real chain never has an empty state, not generated
 		return
 	}
-	if h.rootOnly {
+	if h.afterDrop {
+		// the restarted module reads the trie back from the store, where the nodes of a dropped
+		// block were never written: outside the model (which keeps the live trie expanded)
 		h.tied = false
 	}
 	h.m.Reset()
@@ -376,7 +552,11 @@ func sameCont(a, b map[string][]byte) bool {
 func (h *hist) checkLatest(idx uint32, cur view, withRetained bool) {
 	r := h.recs[idx]
 	if rr := refRoot(r.cont); rr != r.root {
-		h.fail("root-mismatch", "height %d: root %s, a fresh trie with the same contents has %s", idx, r.root.StringBE(), rr.StringBE())
+		key := "root-mismatch"
+		if h.spec != nil {
+			key = "root-mismatch-as-built" // not even the dropped block's changes explain the root
+		}
+		h.fail(key, "height %d: root %s, a fresh trie with the same contents has %s", idx, r.root.StringBE(), rr.StringBE())
 	}
 	w := newWalker(cur, h.rcMode)
 	if !isZero(r.root) {
